@@ -304,3 +304,40 @@ func vSysWritev(fd, p, n uintptr) (uintptr, uintptr, syscall.Errno) {
 	}
 	return uintptr(total), 0, 0
 }
+
+// ---- shim for Stream.asyncGoroutineWg (instrumenter rule R8) ----
+// Under the scheduler a blocking Wait() would keep the baton forever; the shadow counter lets the waiter yield instead.
+var vWgMu sync.Mutex
+var vWgCount = map[*sync.WaitGroup]int{}
+
+func vWgAdd(wg *sync.WaitGroup, n int) {
+	vWgMu.Lock()
+	vWgCount[wg] += n
+	vWgMu.Unlock()
+	wg.Add(n)
+}
+
+func vWgDone(wg *sync.WaitGroup) {
+	vWgMu.Lock()
+	vWgCount[wg]--
+	if vWgCount[wg] <= 0 {
+		delete(vWgCount, wg)
+	}
+	vWgMu.Unlock()
+	wg.Done()
+}
+
+func vWgWait(wg *sync.WaitGroup) {
+	if vS != nil && vS.cur != nil && (vS.filter == nil || vS.filter("wgwait")) {
+		for {
+			vWgMu.Lock()
+			n := vWgCount[wg]
+			vWgMu.Unlock()
+			if n <= 0 {
+				break
+			}
+			vYield("wgwait")
+		}
+	}
+	wg.Wait()
+}
